@@ -422,8 +422,11 @@ PROPS = {
                       "UpgraderUpgrade/version_differs", "UpgraderUpgrade/version_matches_after", "UpgraderUpgrade/upgrade_auth",
                       "UpgraderUpgrade/migrate_auth", "UpgraderUpgrade/migrate_typed"] + ([] if t == "dummy" else ["Migrate/window", "HookOpenWindow/ok"])}
             for t in ["gateway", "gas", "operators", "its", "token", "dummy"]
+        ] + [
+            # unbounded histories (any number of owners, code versions, upgrades), on the design of the derived protocol
+            {"kind": "apalache", "tiers": ["thorough"], "module": "UpgradeInd", "inv": "IndInv", "refute": "NotInvariant", "refute_init": "RefuteInit"},
         ],
-        "level_text": "TLC proves owner-only upgrade, window opened by upgrade, migration only by the owner inside the window, closing it (the same migration is refused in the post-state) and announcing the version, and Upgrader atomicity (unchanged, or new code at the requested different version with the window closed) on every transition of six finite instances (one per target contract); every transition is executed against the natively registered contract from /repo, the real Upgrader and the repository's wasm fixtures.  The source's derived migrate is reached through the verif-hooks window opener.",
+        "level_text": "TLC proves owner-only upgrade, window opened by upgrade, migration only by the owner inside the window, closing it (the same migration is refused in the post-state) and announcing the version, and Upgrader atomicity (unchanged, or new code at the requested different version with the window closed) on every transition of six finite instances (one per target contract); every transition is executed against the natively registered contract from /repo, the real Upgrader and the repository's wasm fixtures.  The source's derived migrate is reached through the verif-hooks window opener. Thorough additionally discharges, with Apalache, an inductive invariant of the derived protocol over unbounded histories, owners and code versions (spec/apalache/UpgradeInd.tla: window open iff an upgrade is pending, migrations never outnumber upgrades, every administrative step by the owner of that moment, an Upgrader step ends at the requested version).",
         "rule": "cases = transitions of the bounded TLC instances (one per target contract) replayed against the contracts; distinct = distinct (abstract pre-state, action) pairs",
         "assumptions": ["soroban-env-host test mode implements on-chain semantics incl. update_current_contract_wasm", "upgrade destinations are the repository's pinned wasm fixtures (no wasm32 target offline); after a swap the fixture's code runs",
                         "the migration window flag is not observable; it is decided through later migrate outcomes"],
